@@ -113,6 +113,10 @@ func convertValueToFloat(value any, typ reflect.Type) (float64, error) {
 		}
 		return v, nil
 	}
+	// a value of a named string type spells a number as a string does
+	if rv := reflect.ValueOf(value); rv.Kind() == reflect.String {
+		return convertValueToFloat(rv.String(), typ)
+	}
 	return 0, conversionError("", value, typ)
 }
 
